@@ -260,11 +260,84 @@ def rand_zp(rng, dtype):
     return rng.choice([lo, hi, 0 if dtype == "int8" else 128, rng.randint(lo, hi), rng.randint(lo, hi)])
 
 
+# ---- extremes stream: quantisation parameters at the ends of what a TFLite file can legally carry ------------------
+# scales log-uniform over 1e-8 .. 1e3 (heavy tails at both ends), zero points at both ends of the type range, per-axis
+# weight zero points != 0, per-axis scales spanning six orders of magnitude, min/max fields, activation parameters
+# (LEAKY_RELU alpha 0 / 1 / > 1 / negative, SOFTMAX beta 0 / tiny / large).  A builder draws from it only when
+# `B.set_extremes` switched it on for the network, so a network generated without it is unchanged.
+EXTREME_SCALES = [1e-8, 1e3, 1.0, 2.0, 3.0, 4.0, 6.0, 0.5, 2.0 ** -24, 255.0, 5.6, 88.0 / 128, 710.0 / 127, 1.0 / 3]
+EXTREME_ALPHAS = [0.0, 1.0, 1.5, 8.0, -0.5, -2.0, 1e-8, 1e3, 0.999, 2.0 ** -16]
+EXTREME_BETAS = [1.0, 0.0, 1e-6, 10.0, 100.0, -1.0, 1e3]
+
+
+def extreme_scale(rng):
+    r = rng.random()
+    if r < 0.30:
+        return float(np.float32(10.0 ** rng.uniform(-8, -4)))
+    if r < 0.60:
+        return float(np.float32(10.0 ** rng.uniform(0, 3)))
+    if r < 0.80:
+        return float(np.float32(10.0 ** rng.uniform(-4, 0)))
+    return float(np.float32(rng.choice(EXTREME_SCALES)))
+
+
+def extreme_zp(rng, dtype):
+    lo, hi = _qrange(dtype)
+    if dtype == "int16":
+        # TFLite int16 activations are symmetric; a non-zero value is still a legal file
+        return rng.choice([0, 0, 0, 0, lo, hi, 1, -1])
+    return rng.choice([lo, hi, lo, hi, lo + 1, hi - 1, rng.randint(lo, hi)])
+
+
 class B:
     """Incremental network builder that tracks shapes."""
 
     def __init__(self, rng, name="net", dtype="int8"):
         self.rng, self.net, self.dtype, self.n = rng, Net(name), dtype, 0
+        self.extreme = 0.0      # probability that one quantisation choice is drawn from the extremes stream
+
+    def set_extremes(self, p_net, p_choice=0.4):
+        """with probability `p_net` this network draws (each choice with probability `p_choice`) from the extremes stream"""
+        if self.rng.random() < p_net:
+            self.extreme = p_choice
+            self.net.desc.append(f"extremes={p_choice}")
+        return self.extreme
+
+    def ex(self):
+        return bool(self.extreme) and self.rng.random() < self.extreme
+
+    def q_scale(self, lo=-9, hi=-1):
+        return extreme_scale(self.rng) if self.ex() else rand_scale(self.rng, lo, hi)
+
+    def q_zp(self, dtype):
+        return extreme_zp(self.rng, dtype) if self.ex() else rand_zp(self.rng, dtype)
+
+    def weight_quant(self, oc, wd, per_channel):
+        """(scales, zero points) of a weight tensor"""
+        rng = self.rng
+        if self.ex():
+            style = rng.choice(["span6", "span6_asym", "asym_axis", "asym_tensor", "one_extreme"])
+            n = oc if (per_channel or style in ("span6", "span6_asym", "asym_axis")) and wd == "int8" else 1
+            if style.startswith("span6"):
+                ws = [float(np.float32(10.0 ** rng.uniform(-7, -1))) for _ in range(n)]
+            elif style == "one_extreme":
+                ws = [extreme_scale(rng) for _ in range(n)]
+            else:
+                ws = [rand_scale(rng, -8, -3) for _ in range(n)]
+            lo, hi = _qrange(wd)
+            if style in ("span6_asym", "asym_axis") and n > 1:
+                wz = [rng.choice([lo, hi, 0, 1, -1, rng.randint(lo, hi)]) for _ in range(n)]
+                if not any(wz):
+                    wz[rng.randrange(n)] = rng.choice([lo, hi, 3])
+            elif style == "asym_tensor":
+                wz = [rng.choice([lo, hi, hi, 1, 100 if wd == "uint8" else -7])] * n
+            else:
+                wz = [0] * n if wd == "int8" else [rng.choice([0, 128, 255])] * n
+            self.net.desc.append("wq:" + style)
+            return ws, wz
+        ws = [rand_scale(rng, -8, -3) for _ in range(oc if per_channel else 1)]
+        wz = [0] * len(ws) if wd == "int8" else [rng.randint(100, 150)]
+        return ws, wz
 
     def fresh(self, prefix):
         self.n += 1
@@ -273,8 +346,8 @@ class B:
     def fm(self, shape, dtype=None, scale=None, zp=None, name=None):
         dtype = dtype or self.dtype
         if dtype in ("int8", "uint8", "int16"):
-            scale = rand_scale(self.rng) if scale is None else scale
-            zp = rand_zp(self.rng, dtype) if zp is None else zp
+            scale = self.q_scale() if scale is None else scale
+            zp = self.q_zp(dtype) if zp is None else zp
             return self.net.add(T(name or self.fresh("t"), shape, dtype, [scale], [zp]))
         return self.net.add(T(name or self.fresh("t"), shape, dtype))
 
@@ -325,8 +398,7 @@ class B:
         wd = "int8" if xt.dtype in ("int8", "int16") else "uint8"
         per_channel = rng.random() < 0.5 if per_channel is None else per_channel
         per_channel = per_channel and wd == "int8"
-        ws = [rand_scale(rng, -8, -3) for _ in range(oc if per_channel else 1)]
-        wz = [0] * len(ws) if wd == "int8" else [rng.randint(100, 150)]
+        ws, wz = self.weight_quant(oc, wd, per_channel)
         wt = self.const([oc, k[0], k[1], c], wd, self.rand_weights([oc, k[0], k[1], c], wd, wstyle), ws, wz, 0, self.fresh("w"))
         bdt = "int64" if xt.dtype == "int16" else "int32"
         ins = [x, wt]
@@ -351,8 +423,7 @@ class B:
         oc = c * mult
         wd = "int8" if xt.dtype in ("int8", "int16") else "uint8"
         per_channel = (rng.random() < 0.5 if per_channel is None else per_channel) and wd == "int8"
-        ws = [rand_scale(rng, -8, -3) for _ in range(oc if per_channel else 1)]
-        wz = [0] * len(ws) if wd == "int8" else [rng.randint(100, 150)]
+        ws, wz = self.weight_quant(oc, wd, per_channel)
         wt = self.const([1, k[0], k[1], oc], wd, self.rand_weights([1, k[0], k[1], oc], wd), ws, wz, 3, self.fresh("w"))
         bdt = "int64" if xt.dtype == "int16" else "int32"
         bs = [xt.scales[0] * s for s in ws]
@@ -385,8 +456,11 @@ class B:
         ic = xt.shape[-1]
         n = int(np.prod(xt.shape[:-1]))
         wd = "int8" if xt.dtype in ("int8", "int16") else "uint8"
-        ws = [rand_scale(rng, -8, -3)]
-        wz = [0] if wd == "int8" else [rng.randint(100, 150)]
+        if self.ex():
+            ws, wz = [extreme_scale(rng)], [extreme_zp(rng, wd) if rng.random() < 0.5 else (0 if wd == "int8" else 128)]
+        else:
+            ws = [rand_scale(rng, -8, -3)]
+            wz = [0] if wd == "int8" else [rng.randint(100, 150)]
         wt = self.const([oc, ic], wd, self.rand_weights([oc, ic], wd), ws, wz, 0, self.fresh("w"))
         bdt = "int64" if xt.dtype == "int16" else "int32"
         br = np.random.RandomState(rng.getrandbits(32))
@@ -412,6 +486,11 @@ class B:
         if kind in ("RELU", "RELU6", "RELU_N1_TO_1"):
             o = self.fm(xt.shape, xt.dtype, scale=xt.scales[0], zp=xt.zps[0])
             self.net.ops.append(Op(kind, [x], [o]))
+        elif kind in ("LOGISTIC", "TANH", "SOFTMAX") and xt.dtype in ("int8", "uint8", "int16") and self.ex():
+            # extremes stream: any output quantisation (a converter writes the fixed one, the file format allows all)
+            o = self.fm(xt.shape, xt.dtype)
+            beta = float(self.rng.choice(EXTREME_BETAS))
+            self.net.ops.append(Op(kind, [x], [o], ("SoftmaxOptions", dict(Beta=beta)) if kind == "SOFTMAX" else None))
         elif kind == "LOGISTIC":
             o = self.fm(xt.shape, xt.dtype, scale=1.0 / 256 if xt.dtype != "int16" else 1.0 / 32768,
                         zp={"int8": -128, "uint8": 0, "int16": 0}[xt.dtype])
@@ -422,11 +501,13 @@ class B:
             self.net.ops.append(Op(kind, [x], [o]))
         elif kind == "LEAKY_RELU":
             o = self.fm(xt.shape, xt.dtype)
-            self.net.ops.append(Op(kind, [x], [o], ("LeakyReluOptions", dict(Alpha=float(self.rng.choice([0.1, 0.2, 0.01, 0.5]))))))
+            alpha = float(self.rng.choice(EXTREME_ALPHAS)) if self.ex() else float(self.rng.choice([0.1, 0.2, 0.01, 0.5]))
+            self.net.ops.append(Op(kind, [x], [o], ("LeakyReluOptions", dict(Alpha=alpha))))
         elif kind == "SOFTMAX":
             o = self.fm(xt.shape, xt.dtype, scale=1.0 / 256 if xt.dtype != "int16" else 1.0 / 32768,
                         zp={"int8": -128, "uint8": 0, "int16": 0}[xt.dtype])
-            self.net.ops.append(Op(kind, [x], [o], ("SoftmaxOptions", dict(Beta=1.0))))
+            beta = float(self.rng.choice(EXTREME_BETAS)) if self.ex() else 1.0
+            self.net.ops.append(Op(kind, [x], [o], ("SoftmaxOptions", dict(Beta=beta))))
         else:  # HARD_SWISH, ABS, ...
             o = self.fm(xt.shape, xt.dtype)
             self.net.ops.append(Op(kind, [x], [o]))
@@ -563,6 +644,18 @@ class B:
 
     def finish(self, outs):
         self.net.outputs = list(outs)
+        if self.extreme:
+            # min / max fields (calibration range as some converters keep it) on about half of the quantised tensors
+            rng = self.rng
+            for t in self.net.tensors:
+                if t.scales is not None and t.dtype in ("int8", "uint8", "int16") and t.qmin is None and rng.random() < 0.5:
+                    lo, hi = _qrange(t.dtype)
+                    zps = t.zps if t.zps is not None else [0] * len(t.scales)
+                    if rng.random() < 0.85:
+                        t.qmin = [float(np.float32(s_ * (lo - z))) for s_, z in zip(t.scales, zps)]
+                        t.qmax = [float(np.float32(s_ * (hi - z))) for s_, z in zip(t.scales, zps)]
+                    else:
+                        t.qmin, t.qmax = rng.choice([([0.0], [0.0]), ([-1e30], [1e30]), ([1.0], [-1.0]), ([-6.0], [6.0])])
         return self.net
 
 
@@ -586,6 +679,7 @@ def random_net(rng, idx=0, profile="mixed", dtype=None, max_ops=6):
         h, w, c = rng.choice([4, 6, 8]), rng.choice([4, 8]), rng.choice([32, 64, 96, 128])
     else:
         h, w, c = rng.randint(1, 20), rng.randint(1, 20), rng.choice([1, 2, 3, 4, 7, 8, 16, 17, 24, 32])
+    b.set_extremes(0.12)
     x = b.input([1, h, w, c])
     b.net.desc.append(f"profile={profile} dtype={dtype} in={[1, h, w, c]}")
     live = [x]
@@ -634,7 +728,7 @@ def random_net(rng, idx=0, profile="mixed", dtype=None, max_ops=6):
             shp = rng.choice([[1, 1, 1, cc], [1, 1, 1, 1], xt.shape])
             lo, hi = _qrange(xt.dtype)
             r = np.random.RandomState(rng.getrandbits(32))
-            c2 = b.const(shp, xt.dtype, r.randint(lo, hi + 1, int(np.prod(shp))), [rand_scale(rng)], [rand_zp(rng, xt.dtype)])
+            c2 = b.const(shp, xt.dtype, r.randint(lo, hi + 1, int(np.prod(shp))), [b.q_scale()], [b.q_zp(xt.dtype)])
             args = (cur, c2) if rng.random() < 0.7 else (c2, cur)
             new = b.binary("MUL" if kind == "mul_const" else rng.choice(["SUB", "ADD"]), *args)
         elif kind == "minmax":
@@ -700,6 +794,8 @@ def cascade_net(rng, idx=0, h=None, w=None, c=None, specs=None, dtype="int8"):
     h = h or rng.choice([33, 37, 40, 41, 48, 49, 50, 64])
     w = w or rng.choice([32, 48, 64])
     c = c or rng.choice([16, 32])
+    if specs is None:
+        b.set_extremes(0.08)
     x = b.input([1, h, w, c])
     cur = x
     specs = specs or [(rng.choice([1, 3, 3, 5]), rng.choice([1, 1, 2, 3]), rng.choice(["SAME", "VALID"]), rng.choice(["conv", "conv", "dw", "pool"]))
@@ -737,6 +833,7 @@ def weird_net(rng, idx=0):
                        "cast", "fc2d", "pool_big", "conv_big_stride", "dyn_weights", "slice", "float_conv", "int32_add",
                        "gather", "dup_inputs", "no_ops_passthrough", "exp_int8", "squeeze", "pad5", "mean_all"])
     b.net.desc.append(f"weird kind={kind} dtype={dtype} dims={dims}")
+    b.set_extremes(0.5, 0.7)
 
     def tensor(shape, dt=None, quant=True, name=None):
         dt = dt or dtype
@@ -882,14 +979,25 @@ def weird_net(rng, idx=0):
 # LUT reuse, deep weight slicing, single-channel FC after buffered convs, bias-less convs, ...)
 
 PATTERNS = ["multi_input", "input_npu_and_cpu", "residual", "lut_reuse", "deep_slices", "fc1_after_conv", "nobias",
-            "casc_s2_valid", "two_npu_islands", "concat_slices", "shared_weights", "big_fm_u65", "avgpool_chain", "minmax_lrelu", "reshape_fork", "widen_ew"]
+            "casc_s2_valid", "two_npu_islands", "concat_slices", "shared_weights", "big_fm_u65", "avgpool_chain", "minmax_lrelu", "reshape_fork", "widen_ew", "shared_consts"]
+# families defined in netgen_ext.py (imported lazily: that module imports this one)
+EXT_PATTERNS = ["lut_mixed", "shape_out", "transpose_perm", "ew_fork", "fc1_two_core"]
+PATTERNS += EXT_PATTERNS
 
 
-def pattern_net(rng, idx=0, pattern=None):
+def pattern_net(rng, idx=0, pattern=None, variant=None):
+    """`variant` (pattern sweep): deterministic choice of the sub-kind inside a family; None = drawn at random"""
     pattern = pattern or rng.choice(PATTERNS)
+    if pattern in EXT_PATTERNS:
+        import netgen_ext
+
+        return netgen_ext.build(rng, idx, pattern, variant)
+    if pattern == "shared_consts":
+        return shared_consts_net(rng, idx)
     dtype = rng.choice(["int8", "int8", "uint8"])
     b = B(rng, f"pat{idx}_{pattern}", dtype)
     b.net.desc.append(f"pattern={pattern} dtype={dtype}")
+    b.set_extremes(0.1)
     if pattern == "multi_input":
         shp = [1, rng.randint(4, 16), rng.randint(4, 16), rng.choice([4, 8, 16])]
         x1, x2 = b.input(shp), b.input(shp)
@@ -1070,3 +1178,112 @@ def pattern_net(rng, idx=0, pattern=None):
     y = b.unary("LEAKY_RELU", y)
     y = b.binary("MINIMUM", y, x)
     return b.finish([y])
+
+
+# ------------------------------------------------------------------------------------------------
+# One filter tensor and / or one bias tensor OF THE FILE used by 2-4 operators that differ in (mostly) exactly one
+# respect.  The TFLite reader hands every operator its own clone of a shared constant (same value_id), graph
+# rewrites change some clones in place, and the weight compressor memoises on the value_id: whatever one
+# operator's request leaves in the process-wide cache must be invisible to the next one.
+
+SHARED_AXES = ["same", "bias", "ofm_scale", "ifm_scale", "ifm_size", "stride", "stride_first", "stride_ge4", "dilation",
+               "tconv", "ifm_bits", "bias_only"]
+
+
+def shared_consts_net(rng, idx=0, axis=None, n_ops=None, kernel=None, oc=None, ic=None, hw=None, dtype=None,
+                      per_channel=None, extra_axis=None):
+    """`axis` (one of SHARED_AXES) names the single respect in which the consumers of the shared filter differ:
+
+    same          nothing (pure reuse)                       bias        each operator has its own bias tensor
+    ofm_scale     OFM quantisation                           ifm_scale   graph inputs with different scales
+    ifm_size      IFM height/width (block config, hence the OFM block depth, may differ per accelerator)
+    stride        strides 1/2/3 with an IFM too deep for the strided-convolution rewrite
+    stride_first  every operator has stride 2 or 3, IFM depth <= 4: only operator 0 of the file is re-laid
+                  (fixup_strided_conv: kw x ic -> kw/f x ic*f)
+    stride_ge4    stride 4 in x (re-laid for every operator index) next to stride 1/2
+    dilation      dilations out of 1..4 (fixup_dilation_gt2 re-lays the filter for 3 and 4)
+    tconv         a CONV_2D and a TRANSPOSE_CONV on one OHWI filter (the transpose convolution is encoded flipped)
+    ifm_bits      int8 and int16 feature maps on one int8 filter
+    bias_only     different filters, one bias tensor"""
+    axis = axis or rng.choice(SHARED_AXES)
+    dtype = dtype or ("int8" if axis in ("ifm_bits", "tconv") else rng.choice(["int8", "int8", "int8", "uint8", "int16"]))
+    b = B(rng, f"pat{idx}_shared_consts", dtype)
+    n_ops = n_ops or rng.choice([2, 2, 2, 3, 4])
+    kh, kw = kernel or rng.choice([(3, 3), (3, 3), (1, 1), (2, 2), (3, 2), (1, 3)])
+    if axis == "stride_first":
+        kh, kw = kernel or rng.choice([(2, 2), (3, 3), (1, 1), (2, 2), (3, 4)])
+        ic = ic or rng.choice([1, 2, 2, 3, 4])
+    elif axis == "dilation" and not kernel:
+        kh, kw = rng.choice([(3, 3), (3, 3), (2, 2), (1, 3), (3, 1)])
+    ic = ic or rng.choice([4, 8, 16, 16, 32])
+    oc = oc or rng.choice([8, 16, 16, 24, 32, 40, 64])
+    h, w = hw or (rng.choice([6, 8, 9, 12, 16]), rng.choice([6, 8, 12, 12, 16, 24]))
+    if axis in ("stride_first", "stride_ge4") and not hw:
+        w = rng.choice([12, 24, 48])          # widths the rewrite's resize factor divides
+    axes = [axis] + ([extra_axis] if extra_axis else [])
+    wd = "int8" if dtype in ("int8", "int16") else "uint8"
+    pc = (rng.random() < 0.5 if per_channel is None else per_channel) and wd == "int8"
+    ws = [rand_scale(rng, -8, -3) for _ in range(oc if pc else 1)]
+    wz = [0] * len(ws) if wd == "int8" else [rng.randint(100, 150)]
+
+    def new_filter():
+        return b.const([oc, kh, kw, ic], wd, b.rand_weights([oc, kh, kw, ic], wd, rng.choice(["uniform", "uniform", "small", "sparse"])),
+                       ws, wz, 0, b.fresh("w"))
+
+    def new_bias(in_scale, bdt):
+        br = np.random.RandomState(rng.getrandbits(32))
+        return b.const([oc], bdt, br.randint(-2000, 2000, oc), [in_scale * s for s in ws], [0] * len(ws), 0, b.fresh("b"))
+
+    in_scale = rand_scale(rng)
+    x0 = b.input([1, h, w, ic], scale=in_scale)
+    wt = new_filter()
+    bt = new_bias(in_scale, "int64" if dtype == "int16" else "int32")
+    out_scale = rand_scale(rng)
+    strides = [1] * n_ops
+    dils = [1] * n_ops
+    if "stride" in axes:
+        strides = [[1, 2, 3, 2][(i + idx) % 4] for i in range(n_ops)]
+    if "stride_first" in axes:
+        s = rng.choice([2, 2, 3])
+        strides = [s] * n_ops if rng.random() < 0.6 else [s] + [rng.choice([1, s]) for _ in range(n_ops - 1)]
+    if "stride_ge4" in axes:
+        strides = [[4, 1, 2, 4][(i + idx) % 4] for i in range(n_ops)]
+    if "dilation" in axes:
+        pool = rng.choice([[1, 3], [3, 1], [2, 4], [4, 2], [1, 2, 3, 4], [3, 3, 1], [1, 4, 2, 3]])
+        dils = [pool[i % len(pool)] for i in range(n_ops)]
+    outs = []
+    b.net.desc.append(f"pattern=shared_consts axis={'+'.join(axes)} dtype={dtype} filter={[oc, kh, kw, ic]} in={[1, h, w, ic]} "
+                      f"strides={strides} dilations={dils} per_channel={pc}")
+    for i in range(n_ops):
+        x, xs, f_i, b_i, osc, odt = x0, in_scale, wt, bt, out_scale, dtype
+        if "ifm_scale" in axes and i > 0:
+            xs = rand_scale(rng)
+            x = b.input([1, h, w, ic], scale=xs)
+        if "ifm_size" in axes and i > 0:
+            x = b.input([1, h * (i + 1), max(1, w // (i + 1)) if i % 2 else w + 4 * i, ic], scale=in_scale)
+        if "ifm_bits" in axes and i % 2 == 1:
+            x = b.input([1, h, w, ic], "int16", scale=in_scale, zp=0)
+            odt = "int16"
+            b_i = new_bias(in_scale, "int64")
+        if "ofm_scale" in axes and i > 0:
+            osc = rand_scale(rng)
+        if ("bias" in axes or "ifm_scale" in axes and rng.random() < 0.5) and i > 0 and b_i == bt:
+            b_i = new_bias(xs, "int64" if dtype == "int16" else "int32")
+        if "bias_only" in axes and i > 0:
+            f_i = new_filter()
+        xt = b.t(x)
+        if "tconv" in axes and i % 2 == 1:
+            oh, ow = xt.shape[1] * 2, xt.shape[2] * 2
+            os_ = b.const([4], "int32", [1, oh, ow, oc], name=b.fresh("oshape"))
+            y = b.fm([1, oh, ow, oc], odt, scale=osc, zp=0 if odt == "int16" else None)
+            b.net.ops.append(Op("TRANSPOSE_CONV", [os_, f_i, x, b_i], [y], ("TransposeConvOptions", dict(Padding=0, StrideW=2, StrideH=2))))
+            outs.append(y)
+            continue
+        s, d = strides[i], dils[i]
+        sh = s if s < 4 else rng.choice([1, 2])
+        oh, ow = b._out_hw(xt.shape[1], xt.shape[2], kh, kw, sh, s, d, d, "SAME")
+        y = b.fm([1, oh, ow, oc], odt, scale=osc, zp=0 if odt == "int16" else None)
+        b.net.ops.append(Op("CONV_2D", [x, f_i, b_i], [y], ("Conv2DOptions", dict(
+            Padding=0, StrideW=s, StrideH=sh, DilationWFactor=d, DilationHFactor=d, FusedActivationFunction=0))))
+        outs.append(y)
+    return b.finish(outs)
